@@ -113,7 +113,7 @@ def _engine_check(prop, cfgs, level_text, assumptions, modes=(0,), queries=False
         if queries:
             jobs += harness_jobs("queries", prop, tier, ["plain"])
             hs.append("queries")
-        if prop in ("C01", "C02", "C03", "C04", "C05", "C08"):
+        if prop in ("C01", "C02", "C03", "C04", "C05", "C06", "C08"):
             jobs += mbconv_jobs(prop, tier, ["plain", "noslack"] if "noslack" in cfgs else ["plain"])
             hs.append("mbconv")
         for h in EXTRA_HARNESSES.get(prop, []):
@@ -279,14 +279,17 @@ def _c13(tier):
     res = Results("C13")
     li = build.build_lib("plain"); exe = build.build_harness(li, "handlers", ["handlers.c"])
     jobs = [("handlers/%d" % i, [exe, "--prop", "C13", "--tier", tier, "--seed", str(seed() * 16 + i), "--cfg", "plain"]) for i in range(4 if tier == "thorough" else 1)]
+    # the kind of handler every failing engine call reports to (mem*_s -> memory handler, everything else -> string handler)
+    jobs += engine_jobs("C13", tier, ["plain"], (0,), nw=NCPU if tier == "thorough" else 6)
     run_workers(jobs, res)
-    res.evaluations = res.counters.get("operations", 0) + res.counters.get("concurrent_ops", 0)
+    res.evaluations = res.counters.get("operations", 0) + res.counters.get("concurrent_ops", 0) + res.counters.get("failing_calls", 0)
     return finish(res, tier, "exploration",
                   "histories of registrations (set_/thrd_set_ x str/mem x {8 probes, NULL}), violating calls and thread creations executed by real threads and checked "
                   "step by step against a sequential model: (1) ALL histories of length 3 (quick) / 4 (thorough) over 14 operations x 2 threads, each closed by 4 probing "
                   "violations; (2) random histories of 5..60 operations over up to 7 threads created by workers; (3) 8 threads concurrently registering thread-local handlers and "
-                  "violating; distinct = (kind, thread-local state, global state, thread role, handler that ran)", t0,
-                  extra_cov=dict(builds=["plain"], harnesses=["handlers"], exhaustive=False, exhaustive_subspace="phase 1 short histories",
+                  "violating; (4) every failing call of the 40 engine exports must reach the handler of its own kind (memory handler for mem*_s / wmem*_s, string handler otherwise); "
+                  "distinct = (kind, thread-local state, global state, thread role, handler that ran) + engine class signatures", t0,
+                  extra_cov=dict(builds=["plain"], harnesses=["handlers", "engine"], exhaustive=False, exhaustive_subspace="phase 1 short histories", engine_failing_calls=res.counters.get("failing_calls", 0),
                                  inheritance_by_created_threads=dict(observed=res.counters.get("inheritance_observed", 0), not_observed=res.counters.get("no_inheritance_observed", 0))),
                   assumptions=["global registrations are serialised by the driver (an unsynchronised global registration racing a violation is not excluded by the statement)",
                                "whether a created thread inherits its creator's thread-local handler is left open: both accepted, the observed behaviour is recorded"],
